@@ -13,7 +13,8 @@ RULE = ("sets reached by sequences of addfilter / updatefilter / replacefilter /
         "non-trivial = set with ≥ 2 filters or a disabled / described filter")
 
 NAME_PIECES = ["rule", "é", "€", " ", "#", '"', "x", "1", ":", ";", "{", "Filter", "Description", "if false", "\\"]
-PREFIXES = [("# Filter: ", "# Description: "), ("#F:", "#D:"), ("# name = ", "# about = "), ("#§ ", "#¶ ")]
+PREFIXES = [("# Filter: ", "# Description: "), ("#F:", "#D:"), ("# name = ", "# about = "), ("#§ ", "#¶ "),
+            ("# [rule] ", "# (about) "), ("# name? ", "# desc+ "), ("# rule.* ", "# d|x: "), ("# \\d ", "# ^$ "), ("# Rule (auto): ", "# {1} ")]
 
 
 def plain_line(r, prefixes, used):
